@@ -28,8 +28,11 @@ Theorem C05_generator_primitive_when_checked : Generator_primitive_stmt.     Pro
 Print Assumptions C05_generator_primitive_when_checked.
 Theorem C05_extension_ops_are_quotient_ring_operations : Ext_ops_stmt.     Proof. exact ext_ops. Qed.
 Print Assumptions C05_extension_ops_are_quotient_ring_operations.
-(* bounded (complete kernel sweep): for every prime power q <= 16, every modulus and generator accepted by fg_ok, the tables
-   the builder computes are accepted by tables_ok; the same statement for all fields is checked per field, not proved *)
+Theorem C05_extension_inv_div_partial : Ext_inv_stmt.     Proof. exact ext_inv. Qed.
+Print Assumptions C05_extension_inv_div_partial.
+(* bounded (complete kernel sweep): for every prime power q <= 32 (every modulus, every generator) and every prime field up to
+   GF(127) (modulus X), whenever fg_ok accepts (p,k,f,g) the tables the builder computes are accepted by tables_ok; the same
+   statement for all other fields is DECIDED per field by the extracted tables_ok on every run, not proved *)
 Theorem C05_builder_tables_accepted_partial : Builder_accepted_bounded_stmt.     Proof. exact builder_accepted_bounded. Qed.
 Print Assumptions C05_builder_tables_accepted_partial.
 (* GF2 (gf2.inl): all 19 variants, both destination kinds (bool& and std::vector<bool>::reference), ALL operand triples are
